@@ -217,7 +217,7 @@ def drive_module(rec, quick):
             rec.violation(label + ": write outside an object", {"N": n})
         events.append({"e": "NttSummary", "n": n, "pattern": "lifetime", "mismatches": mism, "_what": label})
 
-    for n in ([8, 64, 1024] if quick else [2, 8, 64, 256, 1024, 4096]):
+    for n in ([8, 64, 2048] if quick else [2, 8, 64, 256, 1024, 2048, 4096, 8192]):
         m1 = L.module(n, NTT120, MASK_NONE)
         m2 = L.module(n, NTT120, MASK_NONE)
         round_trip(m1, n, "first of two live modules of this dimension")
